@@ -49,6 +49,22 @@ def IsMin (s : HSpec) (h : Fin 2) (e : Nat) : Prop :=
 def MinRet (s : HSpec) (h : Fin 2) (r : HRet) : Prop :=
   (s.live h = [] ∧ r = .handle none) ∨ ∃ e, r = .handle (some e) ∧ IsMin s h e
 
+/-- the spec state after `Pop` returned `e` -/
+def specPop (s : HSpec) (h : Fin 2) (e : Nat) : HSpec :=
+  { s with live := s.setLive h ((s.live h).erase e) }
+
+/-- the spec state after the successive `Pop` results `es` -/
+def specPops (s : HSpec) (h : Fin 2) : List Nat → HSpec
+  | [] => s
+  | e :: es => specPops (specPop s h e) h es
+
+/-- `es` are the results of `k` successive `Pop`s (fewer iff the heap ran empty): each is a live
+handle no live handle precedes at its turn. An interrupted `PopAll` is specified as exactly that. -/
+def PopsOK (s : HSpec) (h : Fin 2) : Nat → List Nat → Prop
+  | 0, es => es = []
+  | _ + 1, [] => s.live h = []
+  | k + 1, e :: es => IsMin s h e ∧ PopsOK (specPop s h e) h k es
+
 def specOK (s : HSpec) : HOp → HRet → Prop
   | .init _ _ _, r => r = .unit
   | .push _ _, r => r = .handle (some s.fresh)
@@ -61,6 +77,7 @@ def specOK (s : HSpec) : HOp → HRet → Prop
   | .setFix _ _ _, r => r = .unit
   | .popAll h, r => ∃ xs, r = .vals xs ∧ xs.Perm ((s.live h).map s.val) ∧
       xs.Pairwise (fun a b => s.cmp h b a = false)
+  | .popAllN h k, r => ∃ es, r = .popped es ∧ PopsOK s h k es
 
 def specStep (s : HSpec) : HOp → HRet → HSpec
   | .init h c vs, _ =>
@@ -73,7 +90,8 @@ def specStep (s : HSpec) : HOp → HRet → HSpec
              val := fun e => if e = s.fresh then x else s.val e,
              fresh := s.fresh + 1 }
   | .pushElem h e, _ => { s with live := s.setLive h (e :: s.live h) }
-  | .pop h, .handle (some e) => { s with live := s.setLive h ((s.live h).erase e) }
+  | .pop h, .handle (some e) => specPop s h e
+  | .popAllN h _, .popped es => specPops s h es
   | .remove h e, _ => { s with live := s.setLive h ((s.live h).erase e) }
   | .setFix _ e v, _ => { s with val := fun x => if x = e then v else s.val x }
   | .popAll h, _ => { s with live := s.setLive h [] }
@@ -198,6 +216,37 @@ theorem live_nil_iff {st : HState} {s : HSpec} (R : Rel st s) (h : Fin 2) :
   · intro h0; have := R.live h; rw [h0] at this; exact List.Perm.nil_eq this |>.symm
   · intro h0; have := R.live h; rw [h0] at this; exact List.Perm.eq_nil this
 
+theorem rel_pop {st : HState} {s : HSpec} (R : Rel st s) (h : Fin 2) :
+    (st.m.arr h.val = [] → st.m.pop (st.cmp h.val) h.val = some (st.m, none) ∧ s.live h = []) ∧
+    (st.m.arr h.val ≠ [] → ∃ m' e, st.m.pop (st.cmp h.val) h.val = some (m', some e) ∧ IsMin s h e ∧
+      Rel { st with m := m' } (specPop s h e)) := by
+  have hok := R.ok
+  refine ⟨fun h0 => ⟨(pop_spec (swo_of R h) h.isLt hok).1 h0, (live_nil_iff R h).1 h0⟩, fun h0 => ?_⟩
+  obtain ⟨m', hrun, hrm⟩ := (pop_spec (swo_of R h) h.isLt hok).2 h0
+  refine ⟨m', _, hrun, minRet_of R h h0, ?_⟩
+  refine rel_mk R h hrm.ok ?_ hrm.other (fun h' hne => setLive_other s h _ h' hne) ?_ ?_ rfl
+  · simp only [specPop, setLive_self]
+    exact perm_erase_of_cons (hrm.perm.trans (R.live h))
+  · intro e; rw [hrm.val]; exact R.val e
+  · rw [hrm.fresh]; exact R.fresh
+
+/-- `PopAll` left after `k` elements = `k` `Pop`s, in the model and in the spec. -/
+theorem rel_popAllK (h : Fin 2) : ∀ (k : Nat) (st : HState) (s : HSpec), Rel st s →
+    ∃ m' es, HMem.popAllK (st.cmp h.val) h.val k st.m = some (m', es) ∧ PopsOK s h k es ∧
+      Rel { st with m := m' } (specPops s h es) := by
+  intro k
+  induction k with
+  | zero => intro st s R; exact ⟨st.m, [], rfl, rfl, R⟩
+  | succ k ih =>
+    intro st s R
+    by_cases h0 : st.m.arr h.val = []
+    · obtain ⟨hrun, hl⟩ := (rel_pop R h).1 h0
+      exact ⟨st.m, [], by simp [HMem.popAllK, hrun], hl, R⟩
+    · obtain ⟨m1, e, hrun, hmin, R1⟩ := (rel_pop R h).2 h0
+      obtain ⟨m2, es, hrun2, hok2, R2⟩ := ih { st with m := m1 } _ R1
+      have hrun2' : HMem.popAllK (st.cmp h.val) h.val k m1 = some (m2, es) := hrun2
+      exact ⟨m2, e :: es, by simp [HMem.popAllK, hrun, hrun2'], ⟨hmin, hok2⟩, R2⟩
+
 theorem step_refines {st : HState} {s : HSpec} (R : Rel st s) (op : HOp)
     (hpre : specPre s op) :
     ∃ st' r, stepH st op = some (st', r) ∧ specOK s op r ∧ Rel st' (specStep s op r) := by
@@ -275,7 +324,7 @@ theorem step_refines {st : HState} {s : HSpec} (R : Rel st s) (op : HOp)
       refine ⟨{ st with m := m' }, .handle (some (elemAt st.m h.val 0)), by simp [stepH, hrun], ?_, ?_⟩
       · exact Or.inr ⟨_, rfl, minRet_of R h h0⟩
       · refine rel_mk R h hrm.ok ?_ hrm.other (fun h' hne => setLive_other s h _ h' hne) ?_ ?_ rfl
-        · simp only [specStep, setLive_self]
+        · simp only [specStep, specPop, setLive_self]
           exact perm_erase_of_cons (hrm.perm.trans (R.live h))
         · intro e; rw [hrm.val]; exact R.val e
         · rw [hrm.fresh]; exact R.fresh
@@ -352,6 +401,9 @@ theorem step_refines {st : HState} {s : HSpec} (R : Rel st s) (op : HOp)
       · simp only [specStep, setLive_self]; rw [hemp]
       · intro e; rw [hval]; exact R.val e
       · rw [hfresh]; exact R.fresh
+  | popAllN h k =>
+    obtain ⟨m', es, hrun, hpok, R'⟩ := rel_popAllK h k st s R
+    exact ⟨{ st with m := m' }, .popped es, by simp [stepH, hrun], ⟨es, rfl, hpok⟩, R'⟩
 
 /-- The refinement along every operation sequence. -/
 theorem refines_all : ∀ (ops : List HOp) (st : HState) (s : HSpec),
